@@ -95,6 +95,8 @@ func loadProg(repo, goos, tags string) (*Prog, error) {
 	return p, nil
 }
 
+func (p *Prog) inModFn(f *ssa.Function) bool { return f != nil && p.inMod(f) }
+
 // inMod reports whether f belongs to the module under analysis (closures, instances and
 // wrappers included: they carry no package of their own).
 func (p *Prog) inMod(f *ssa.Function) bool {
